@@ -375,7 +375,10 @@ func c07Layout() *layout {
 	}
 	presets := [...]layout{{}, {spaces: true}, {parens: true, spaces: true}, {comment: true}, {comment: true, unicode: true, blank: true}, {blank: true, parens: true},
 		{clines: true}, {clines: true, blank: true, indent: true, spaces: true}, {indent: true, comment: true}, {pleaves: true}, {pleaves: true, parens: true, spaces: true}}
-	l := presets[vrt.Choice("layout", len(presets))]
+	// param nlayouts: how many of the presets (the deep statement tier uses the contrasting ones:
+	// plain, everything-with-comment-lines, parenthesised)
+	order := [...]int{0, 7, 10, 4, 2, 8, 6, 5, 3, 1, 9}
+	l := presets[order[vrt.Choice("layout", vrt.Param("nlayouts", len(presets)))]]
 	return &l
 }
 
